@@ -153,8 +153,15 @@ def rule_roundtrip(ctx) -> None:
         ("CmdMemEnable", [{"address": 0x100, "size": 4, "mem_id": 9}]),
         ("CmdVersionCheck", [{"ver_type": vct.NON_SECURE_VERSION, "version": 0x16}, {"ver_type": vct.SECURE_VERSION, "version": 1}]),
         ("CmdProg", [{"address": 0x100, "mem_id": 4, "data_word1": 0x11223344, "data_word2": 0x55667788}]),
+        ("CmdLoad", [{"address": 0x100, "data": bytes(range(1, 21)), "mem_id": 2}, {"address": 0x100, "data": bytes(range(32)), "mem_id": 0}]),
+        ("CmdFill", [{"address": 0x100, "pattern": 0xA5, "length": 0x20}, {"address": 0x100, "pattern": 0x11223344, "length": None}, {"address": 0x100, "pattern": 0x1234, "length": 8}]),
     ]
-    roundtrip.check_classes(ctx, "C04.cmd-roundtrip", CMD, table, floor=8)
+    ext = ctx.enum_model(ctx.cls("spsdk/mboot/memories.py", "ExtMemId"))
+    if ext is None or not ext.members():
+        raise AnalysisError("C04.cmd-roundtrip: ExtMemId does not fold to an enum model")
+    some = ext.members()[min(1, len(ext.members()) - 1)]
+    table += [("CmdKeyStoreBackup", [{"address": 0x100, "controller_id": some}]), ("CmdKeyStoreRestore", [{"address": 0x100, "controller_id": some}])]
+    roundtrip.check_classes(ctx, "C04.cmd-roundtrip", CMD, table, floor=12)
 
 
 def rule_routes(ctx) -> None:
